@@ -37,7 +37,7 @@ const bytesPrelude = `(declare-sort B 0)
 (declare-fun bripemd160 (B) B)
 (declare-fun bhash160 (B) B)
 (assert (= (blen beps) 0))
-(assert (forall ((a B)) (! (>= (blen a) 0) :pattern ((blen a)))))
+(assert (forall ((a B)) (! (and (>= (blen a) 0) (<= (blen a) 4611686018427387904)) :pattern ((blen a)))))
 (assert (forall ((a B)) (! (=> (= (blen a) 0) (= a beps)) :pattern ((blen a)))))
 (assert (forall ((a B) (b B)) (! (= (blen (bcat a b)) (+ (blen a) (blen b))) :pattern ((bcat a b)))))
 (assert (forall ((a B)) (! (= (bcat beps a) a) :pattern ((bcat beps a)))))
@@ -72,6 +72,7 @@ const bytesPrelude = `(declare-sort B 0)
 (assert (forall ((x Int)) (! (=> (and (<= 0 x) (<= x 255)) (= (bat (b1 x) 0) x)) :pattern ((b1 x)))))
 (assert (forall ((a B) (b B) (i Int)) (! (= (bat (bcat a b) i) (ite (< i (blen a)) (bat a i) (bat b (- i (blen a))))) :pattern ((bat (bcat a b) i)))))
 (assert (forall ((a B)) (! (=> (= (blen a) 1) (= a (b1 (bat a 0)))) :pattern ((bat a 0)))))
+(assert (forall ((a B)) (! (=> (= (blen a) 4) (= a (bcat (b1 (bat a 0)) (bcat (b1 (bat a 1)) (bcat (b1 (bat a 2)) (b1 (bat a 3))))))) :pattern ((bat a 3)))))
 (assert (forall ((n Int) (lo Int) (hi Int)) (! (=> (and (<= 0 lo) (<= lo hi) (<= hi n)) (= (bsub (bzeros n) lo hi) (bzeros (- hi lo)))) :pattern ((bsub (bzeros n) lo hi)))))
 (assert (= (bzeros 0) beps))
 `
@@ -111,7 +112,7 @@ func (e *Enc) nameTerm(prefix, sort, t string) string {
 		return c
 	}
 	c := e.fresh(prefix, sort)
-	e.assert(app("=", c, t))
+	e.assertDefn(c, t)
 	e.named[t] = c
 	return c
 }
